@@ -29,7 +29,10 @@ StateA == << 30, 29, 24 >>   \* UTO
 CodeP == << 25, 36 >>   \* P<
 SexF == << 15 >>   \* F
 
+NumG == << 13, 2, 3, 1, 4, 5, 8, 9, 0, 7, 3, 4, 10, 11, 1, 2, 12, 13, 3, 4, 14, 15 >>   \* D23145890734AB12CD34EF  (22: the longest a TD1 zone holds)
+NumH == SubSeq(NumG, 1, 15)                                                               \* D23145890734AB1         (15)
 NumOf(n)  == CASE n = "A" -> NumA [] n = "B" -> NumB [] n = "C" -> NumC [] n = "D" -> NumD [] n = "E" -> NumE [] n = "F" -> NumF
+               [] n = "G" -> NumG [] n = "H" -> NumH
 DobC == << 36, 36, 0, 8, 1, 2 >>   \* <<0812  year unknown
 DobD == << 7, 4, 36, 36, 36, 36 >> \* 74<<<<  month and day unknown
 DobOf(n)  == CASE n = "A" -> DobA [] n = "B" -> DobB [] n = "C" -> DobC [] n = "D" -> DobD
@@ -89,7 +92,9 @@ Ins(b, p, c)   == SubSeq(b, 1, p) \o << c >> \o SubSeq(b, p + 1, Len(b))
 \* further bases that are not mutated (the table stays small): dates of birth with unknown parts, every layout
 PlainBases == UNION { { Build(lay, NumOf(n), DobOf(d), ExpOf("A"), OptOf(o), NameOf("A")) :
                           n \in { x \in {"A", "C"} : ~(lay = "TD3" /\ x = "C") }, d \in {"C", "D"}, o \in {"A", "N"} } : lay \in Layouts }
-Init == \/ \E b \in PlainBases : m = b /\ how = "base"
+\* TD1 with the longest extended document numbers (the optional data field holds up to 13 further characters)
+LongTD1 == { Build("TD1", NumOf(n), DobOf("A"), ExpOf("A"), OptOf("N"), NameOf("A")) : n \in {"G", "H"} }
+Init == \/ \E b \in PlainBases \cup LongTD1 : m = b /\ how = "base"
         \/ \E b \in Bases :
           \/ m = b /\ how = "base"
           \/ \E p \in 1..Len(b), c \in SubstSet : c # b[p] /\ m = Subst(b, p, c) /\ how = "subst"
